@@ -408,7 +408,9 @@ func genEffects(w *world) string {
 			})
 		}
 		calls = append(calls, tuple(leanStr(u.name), leanStrList(callees)))
-		refs = append(refs, tuple(leanStr(u.name), leanStrList(frefs)))
+		if len(frefs) > 0 {
+			refs = append(refs, tuple(leanStr(u.name), leanStrList(frefs)))
+		}
 		if len(ws) == 0 {
 			writes = append(writes, tuple(leanStr(u.name), "[]"))
 		} else {
@@ -432,7 +434,8 @@ func genEffects(w *world) string {
 		"\"indirect:<expr>\": call of any other function value; \"indirect:range(<expr>)\": range over a function iterator.\n"+
 		"Conversions are not calls.",
 		"calls", "List (String × List String)", calls)
-	f.list("functions and methods mentioned as values (not in callee position), e.g. the method value t.restoreKey",
+	f.list("functions and methods mentioned as values (not in callee position), e.g. the method value t.restoreKey;\n"+
+		"functions without such mentions are omitted",
 		"funcRefs", "List (String × List String)", refs)
 	f.list("Write footprint per function, in source order: LHS of `=` / `op=` / `++` / `--` (and of `for … = range`), first argument of\n"+
 		"copy / clear / delete / append (every append, whether or not the result is assigned back).  `:=` and `var` only create\n"+
